@@ -1,5 +1,6 @@
-// UNIT: id=C04 cxxflags="-DVF_PTS_BYTES=128" threads=3 hb=0 plain=invisible validate=0 validate_reason="concurrent unit: the schedule is a solver variable of the sequentialised step machine"
+// UNIT: id=C04 checks=min cxxflags="-DVF_PTS_BYTES=128" threads=3 hb=0 plain=invisible validate=0 validate_reason="concurrent unit: the schedule is a solver variable of the sequentialised step machine"
 // ASSUME: threads are sequentialised by ir2c: every atomic/volatile access is a scheduling point; plain accesses are glued (per-thread TokenHolder fields processIsBlack/lastWasWhite/hasToken(tree)/parent/child are only touched by their own thread)
+// ASSUME: CBMC's per-dereference pointer checks are off in this unit (checks=min: they multiply the formula beyond memory); harness assertions, deadlock probe, step-bound and unwinding assertions are on
 // ASSUME: values follow SC interleavings
 // ASSUME: environment = an abstract work ledger with the discipline of ForEachExecutor::go(): a thread takes a unit from a shared pool (sets didWork), may create one new unit while holding one, and calls localTermination(didWork) only when it holds nothing; the pool is ghost state, so taking/creating work is atomic with the neighbouring scheduling point
 // ASSUME: initializeThread() of every thread has completed before any localTermination() (in the executor a barrier enforces this; barriers are C05)
